@@ -156,12 +156,58 @@ func runC13(c *Ctx, r *Report) {
 				}
 			}
 		})
+		// the field's value (or its elements) must flow into a recursive Modify call
+		rewritten := map[int]bool{}
+		var fromField func(v ssa.Value, d int) int
+		fromField = func(v ssa.Value, d int) int {
+			if d > 8 || v == nil {
+				return -1
+			}
+			switch x := v.(type) {
+			case *ssa.MakeInterface:
+				return fromField(x.X, d+1)
+			case *ssa.ChangeInterface:
+				return fromField(x.X, d+1)
+			case *ssa.UnOp:
+				return fromField(x.X, d+1)
+			case *ssa.FieldAddr:
+				if x.X == a.v {
+					return x.Field
+				}
+				return fromField(x.X, d+1)
+			case *ssa.IndexAddr:
+				return fromField(x.X, d+1)
+			case *ssa.Lookup:
+				if r := fromField(x.X, d+1); r >= 0 {
+					return r
+				}
+				return fromField(x.Index, d+1)
+			case *ssa.Extract:
+				return fromField(x.Tuple, d+1)
+			case *ssa.Next:
+				return fromField(x.Iter, d+1)
+			case *ssa.Range:
+				return fromField(x.X, d+1)
+			case *ssa.Phi:
+				for _, e := range x.Edges {
+					if r := fromField(e, d+1); r >= 0 {
+						return r
+					}
+				}
+			}
+			return -1
+		}
+		for _, mc := range callsIn(modify, c.Fn("ast", "Modify")) {
+			if fld := fromField(mc.Common().Args[0], 0); fld >= 0 {
+				rewritten[fld] = true
+			}
+		}
 		for f := 0; f < st.NumFields(); f++ {
 			if !isChildField(st.Field(f).Type()) {
 				continue
 			}
 			// a whole-struct copy carries the field, but then it must also be rewritten: require an explicit read for node-valued children
-			ok := read[f]
+			ok := read[f] && rewritten[f]
 			if !ok && copiedWhole {
 				// fields copied verbatim: acceptable only for names/tokens that are not rewritten (e.g. FunctionLiteral.Name)
 				ft := st.Field(f).Type()
